@@ -406,6 +406,66 @@ theorem len_scale_rejects (d : Nat) (l : ℝ) (anis : List ℝ) (a : ℝ) (ha : 
     simp only [List.all_eq_true, decide_eq_true_eq, Nat.cast_zero, not_forall]
     exact ⟨a, ha, not_lt.2 hneg⟩
 
+/-! ## rotations preserve length; law-free padding rules -/
+
+/-- derotating (and rotating) a position does not change its Euclidean norm … -/
+theorem rotation_preserves_norm (d : Nat) (angles : List ℝ) (x : Nat → ℝ) :
+    norm2 d (applyMat d (matrixDerotate d angles) x) = norm2 d x ∧
+    norm2 d (applyMat d (matrixRotate d angles) x) = norm2 d x := by
+  obtain ⟨o1, o2, _⟩ := rotate_orthogonal d angles
+  have key : ∀ A : Matrix (Fin d) (Fin d) ℝ, Aᵀ * A = 1 → ∀ v : Fin d → ℝ, (A *ᵥ v) ⬝ᵥ (A *ᵥ v) = v ⬝ᵥ v := by
+    intro A hA v
+    rw [Matrix.dotProduct_mulVec, ← Matrix.mulVec_transpose, Matrix.mulVec_mulVec, hA, Matrix.one_mulVec]
+  constructor
+  · rw [norm2_eq, norm2_eq, toV_applyMat, derotate_eq_transpose, key _ (by rw [Matrix.transpose_transpose]; exact o1)]
+  · rw [norm2_eq, norm2_eq, toV_applyMat, key _ o2]
+
+/-- … so a model without anisotropy is rotation invariant: its isotropic radius is the plain norm
+    whatever the angles are. -/
+theorem iso_rad_without_anis (d : Nat) (angles : List ℝ) (x : Nat → ℝ) :
+    isoRad d angles [] x = norm2 d x := by
+  have hs : stretch d ([] : List ℝ) = fun _ => 1 := by
+    funext i
+    have hp := (pad_rules_anis d []).2.1 (Nat.zero_le _)
+    have hi := i.2
+    simp only [stretch, hp, List.append_nil, List.length_nil, Nat.sub_zero]
+    rcases i with ⟨_ | k, hk⟩
+    · simp
+    · have : k < d - 1 := by omega
+      simp [List.getElem?_replicate, this]
+  have h1 : toV d (isometrize d angles [] x) = toV d (applyMat d (matrixDerotate d angles) x) := by
+    rw [isometrize, toV_applyMat, toV_applyMat, (iso_aniso_factor d angles []).1, hs, derotate_eq_transpose]
+    simp
+  rw [isoRad, norm2_eq, h1, ← norm2_eq, (rotation_preserves_norm d angles x).1]
+
+/-- the padding rules need no arithmetic laws: they hold verbatim for IEEE doubles -/
+theorem pad_rules_any {α : Type} [Arith α] (d : Nat) (an as : List α) :
+    (setAnis d an).length = d - 1 ∧ (setAngles d as).length = noOfAngles d ∧
+    (an.length ≤ d - 1 → setAnis d an = List.replicate (d - 1 - an.length) ((1:Nat):α) ++ an) ∧
+    (d - 1 ≤ an.length → setAnis d an = an.take (d - 1)) ∧
+    (as.length ≤ noOfAngles d → setAngles d as = as ++ List.replicate (noOfAngles d - as.length) ((0:Nat):α)) ∧
+    (noOfAngles d ≤ as.length → setAngles d as = as.take (noOfAngles d)) := by
+  refine ⟨?_, ?_, fun h => ?_, fun h => ?_, fun h => ?_, fun h => ?_⟩
+  · simp only [setAnis, List.length_take]
+    split
+    · simp only [List.length_append, List.length_replicate, List.length_take]; omega
+    · simp only [List.length_take]; omega
+  · simp only [setAngles, List.length_append, List.length_take, List.length_replicate]; omega
+  · simp only [setAnis]
+    rw [List.take_of_length_le h]
+    split
+    · have : d - an.length - 1 = d - 1 - an.length := by omega
+      rw [this]
+    · have : d - 1 - an.length = 0 := by omega
+      simp [this]
+  · simp only [setAnis, List.length_take]
+    rw [if_neg (by omega)]
+  · simp only [setAngles]
+    rw [List.take_of_length_le h]
+  · simp only [setAngles, List.length_take]
+    have : noOfAngles d - min (noOfAngles d) as.length = 0 := by omega
+    simp [this]
+
 /-! ## the pipelines -/
 
 /-- distances between isometrized positions are the model's isotropic radius of the raw lag:
